@@ -31,7 +31,7 @@ var c19Methods = []string{"Append", "Prepend", "Replace"}
 const c19Shapes = 6
 
 // initial lists: nil, empty, spare capacity, and four lists produced by the decorator / Clone
-const c19Inits = 7
+const c19Inits = 8
 
 var c19NOps = len(c19Methods)*c19Shapes + 1 // + Clear
 
@@ -46,7 +46,7 @@ func init() {
 	core.Register(&core.Prop{
 		ID:    "C19",
 		Level: "model_checking",
-		Rule: "explicit-state BFS over all histories of Append/Prepend/Replace x {no args, 1, 2 strings, slices with spare capacity, nil slice} and Clear, from 7 initial lists (nil, empty, spare capacity; Start and X of a qualified identifier the decorator collapsed with all three of its points filled, Start of its Clone, X of a decorated binary expression), " +
+		Rule: "explicit-state BFS over all histories of Append/Prepend/Replace x {no args, 1, 2 strings, slices with spare capacity, nil slice} and Clear, from 8 initial lists (nil, empty, spare capacity; the Start list, grown to three elements one at a time, of a node whose Clone lives in the same file - every operation is then also made, with values of its own, on the clone's list and both lists must follow their own models; Start and X of a qualified identifier the decorator collapsed with all three of its points filled, Start of its Clone, X of a decorated binary expression), " +
 			"depth 7 (quick) / 10 (thorough); after every step: All() == []string model, caller backing arrays bit-identical, later caller mutation invisible, slices returned by earlier All() calls keep their contents, every other decoration list of the decorated file unchanged, printed comments == All() (at every decoration point of every node of a file with many optional parts absent; as a statement's Start decoration as the Start/X/End decorations of a package-qualified identifier under import management, and framed by newlines at the Start of an import spec of a block that receives a new import, which must leave the list untouched); " +
 			"state key = (contents relabelled by first occurrence, spare capacity); non-trivial = state with >=2 elements",
 		Assumptions: []string{"methods do not inspect string values (relabelling is a sound canonicalisation)"},
@@ -118,6 +118,11 @@ func c19Exec(cs c19Case) (key string, out core.Outcome) {
 	// lists handed out by the library (init >= 3) live next to sibling lists in a decorated file: an
 	// operation on one list must leave every other list of the file as it was
 	var siblings func() string
+	// init 7: the node that owns the list has a Clone living in the same file; every operation on the list is followed
+	// by an operation of the same kind, with values of its own, on the clone's corresponding list; each list must
+	// follow its own model
+	var twin *dst.Decorations
+	var twinModel []string
 	switch cs.Init {
 	case 1:
 		own = dst.Decorations{}
@@ -126,15 +131,19 @@ func c19Exec(cs c19Case) (key string, out core.Outcome) {
 		b[0] = fresh()
 		own = dst.Decorations(b)
 		model = []string{b[0]}
-	case 3, 4, 5, 6:
+	case 3, 4, 5, 6, 7:
 		f, target := c19LibraryList(cs.Init)
+		if cs.Init == 7 {
+			twin = c19Twin
+			twinModel = append([]string{}, []string(*twin)...)
+		}
 		dp = target
 		model = append([]string{}, []string(*dp)...)
 		siblings = func() string {
 			var b strings.Builder
 			for ni, nd := range allNodes(f) {
 				for _, p := range decPoints(nd) {
-					if p.List != dp && len(*p.List) > 0 {
+					if p.List != dp && p.List != twin && len(*p.List) > 0 {
 						fmt.Fprintf(&b, "%d.%s=%q;", ni, p.Name, []string(*p.List))
 					}
 				}
@@ -227,6 +236,46 @@ func c19Exec(cs c19Case) (key string, out core.Outcome) {
 		if len(got) != len(model) || (len(model) > 0 && !reflect.DeepEqual([]string(got), model)) {
 			return fail("model-mismatch:"+c19Methods0(op), "after step %d %s: All() = %q, ordered-list model = %q", step, c19OpName(op), got, model)
 		}
+		if twin != nil {
+			nargs := 0
+			if op != c19NOps-1 {
+				switch op % c19Shapes {
+				case 1, 3:
+					nargs = 1
+				case 2, 4:
+					nargs = 2
+				}
+			}
+			var targs []string
+			for i := 0; i < nargs; i++ {
+				targs = append(targs, fresh())
+			}
+			tp := guard(func() {
+				switch {
+				case op == c19NOps-1:
+					twin.Clear()
+					twinModel = nil
+				case op/c19Shapes == 0:
+					twin.Append(targs...)
+					twinModel = append(append([]string{}, twinModel...), targs...)
+				case op/c19Shapes == 1:
+					twin.Prepend(targs...)
+					twinModel = append(append([]string{}, targs...), twinModel...)
+				default:
+					twin.Replace(targs...)
+					twinModel = append([]string{}, targs...)
+				}
+			})
+			if tp != "" {
+				return fail("panic", "step %d %s on the clone's list panicked: %s", step, c19OpName(op), tp)
+			}
+			if g := twin.All(); len(g) != len(twinModel) || (len(g) > 0 && !reflect.DeepEqual([]string(g), twinModel)) {
+				return fail("clone-list-model-mismatch:"+c19Methods0(op), "after step %d %s on the list of a node and then on the corresponding list of its Clone: the clone's All() = %q, model = %q", step, c19OpName(op), g, twinModel)
+			}
+			if g := dp.All(); len(g) != len(model) || (len(g) > 0 && !reflect.DeepEqual([]string(g), model)) {
+				return fail("list-changed-by-operation-on-clone:"+c19Methods0(op), "step %d: %s on the corresponding list of the node's Clone changed the node's own list: All() = %q, model = %q", step, c19OpName(op), g, model)
+			}
+		}
 		if err := c19Everywhere(*dp); err != nil {
 			return fail("rendered-differs-at-some-point", "after step %d %s: %v", step, c19OpName(op), err)
 		}
@@ -272,6 +321,16 @@ func c19LibraryList(kind int) (*dst.File, *dst.Decorations) {
 		panic("c19: qualified identifier not collapsed")
 	}
 	switch kind {
+	case 7:
+		// a list grown one element at a time (as the decorator and callers grow them: spare capacity after the third),
+		// on a node that is then cloned; the clone lives in the same file
+		for _, c := range []string{"/* s2 */", "/* s3 */"} {
+			id.Decs.Start.Append(c)
+		}
+		c := dst.Clone(id).(*dst.Ident)
+		lit.Elts = append(lit.Elts, c)
+		c19Twin = &c.Decs.Start
+		return f, &id.Decs.Start
 	case 3:
 		return f, &id.Decs.Start
 	case 4:
@@ -283,6 +342,9 @@ func c19LibraryList(kind int) (*dst.File, *dst.Decorations) {
 	}
 	return f, &lit.Elts[1].(*dst.BinaryExpr).Decs.X
 }
+
+// c19Twin is the clone-side list of the last c19LibraryList(7) call.
+var c19Twin *dst.Decorations
 
 type c19Snap struct {
 	step int
